@@ -479,12 +479,14 @@ type Contract struct {
 	CallAssert []CallAssert
 	Assumes    []Clause
 	Witness    map[string]SExpr // existential witnesses for this function's own proof
+	Uses       map[string][]string // ensures label -> label prefixes of earlier ensures assumed when proving it
 	Fresh      bool   // result is a freshly allocated object
 	Reads      string // for pure: "" (by type), "none", "all"
 	File       string
 	Line       int
 	Why        string
 	IntOverflow bool
+	EMatch      bool // wrap element index sums in ix() for arithmetic-free triggers
 }
 
 type SpecFunc struct {
@@ -521,7 +523,13 @@ type Guarded struct {
 	Fields []string
 }
 
+type GlobalInv struct {
+	Pkg    string
+	Clause Clause
+}
+
 type SpecFile struct {
+	Globals   []GlobalInv
 	Pkg       string
 	Funcs     map[string]*Contract
 	Ifaces    map[string]*Contract
@@ -531,10 +539,10 @@ type SpecFile struct {
 	Guarded   []Guarded
 }
 
-var topKeywords = map[string]bool{"spec": true, "ghost": true, "func": true, "lemma": true, "iface": true, "guarded": true, "level": true, "extern": true}
+var topKeywords = map[string]bool{"global": true, "spec": true, "ghost": true, "func": true, "lemma": true, "iface": true, "guarded": true, "level": true, "extern": true}
 var clauseKeywords = map[string]bool{"safe": true, "inline": true, "pure": true, "props": true, "requires": true, "ensures": true,
 	"modifies": true, "invariant": true, "loopmodifies": true, "assume": true, "assert": true, "trusted": true, "reads": true,
-	"fresh": true, "ghost": true, "why": true, "nooverflow": true, "witness": true}
+	"fresh": true, "ghost": true, "why": true, "nooverflow": true, "witness": true, "uses": true, "ematch": true}
 
 // parseSpecText parses the //@ lines of a contract file.  pkg is the
 // package path the file belongs to ("" for the trusted table).
@@ -676,6 +684,12 @@ func parseSpecText(pkg, file, text string) (*SpecFile, error) {
 				}
 				curLemma = &Lemma{Name: strings.TrimSpace(s.rest[:i]), Pkg: pkg, Params: params, File: file, Line: s.n}
 				sf.Lemmas = append(sf.Lemmas, curLemma)
+			case "global":
+				c, err := mkClause(s.n, s.rest)
+				if err != nil {
+					return nil, err
+				}
+				sf.Globals = append(sf.Globals, GlobalInv{Pkg: pkg, Clause: c})
 			case "guarded":
 				// guarded T.mu: f1 f2
 				i := strings.Index(s.rest, ":")
@@ -720,10 +734,22 @@ func parseSpecText(pkg, file, text string) (*SpecFile, error) {
 			cur.Fresh = true
 		case "nooverflow":
 			cur.IntOverflow = true
+		case "ematch":
+			cur.EMatch = true
 		case "reads":
 			cur.Reads = s.rest
 		case "why":
 			cur.Why = s.rest
+		case "uses":
+			// uses LABEL: prefix prefix ...
+			i := strings.Index(s.rest, ":")
+			if i < 0 {
+				return nil, fail(s.n, "uses label: prefixes")
+			}
+			if cur.Uses == nil {
+				cur.Uses = map[string][]string{}
+			}
+			cur.Uses[strings.TrimSpace(s.rest[:i])] = strings.Fields(s.rest[i+1:])
 		case "witness":
 			i := strings.Index(s.rest, "=")
 			if i < 0 {
